@@ -100,6 +100,18 @@ def contexts():
                                     allowed=[SE % "Expression", SE % "Guard"], ctc=False)
     c["quantified-body-function"] = dict(mk=lambda e: dict(gdecl_post="bool qf() { return forall (qi : int[0,1]) %s == 1; }" % e),
                                          allowed=[SE % "Expression"], ctc=False)
+    # a quantified body is side-effect free also where the surrounding context allows writes: an update label, the statements of a
+    # function (typechecker.cpp, cases FORALL / EXISTS / SUM of checkExpression)
+    for qn, q in (("forall", "(forall (qi : int[0,1]) %s == 1)"), ("exists", "(exists (qi : int[0,1]) %s == 1)"),
+                  ("sum", "((sum (qi : int[0,1]) %s) == 1)")):
+        for pn, place in (("update", None), ("fn-expr", "void qf() { x = %s ? 1 : 0; }"), ("fn-return", "bool qf() { return %s; }"),
+                          ("fn-if", "void qf() { if (%s) { x = 1; } }"), ("fn-while", "void qf() { int loc = 0; while (%s && loc < 1) { loc++; } }"),
+                          ("fn-local-init", "void qf() { bool lq = %s; x = lq ? 1 : 0; }")):
+            if place is None:
+                mk = (lambda q: (lambda e: dict(assign="x = %s ? 1 : 0" % (q % e))))(q)
+            else:
+                mk = (lambda q, place: (lambda e: dict(gdecl_post=place % (q % e))))(q, place)
+            c["quantified-%s-in-%s" % (qn, pn)] = dict(mk=mk, allowed=[SE % "Expression"] + ([SE % "Initialiser"] if pn == "fn-local-init" else []), ctc=False)
     c["assertion"] = dict(mk=lambda e: dict(gdecl_post="void fa() { assert(%s == 1); }" % e), allowed=[SE % "Assertion"], ctc=False)
     c["query-AG"] = dict(mk=lambda e: dict(queries=["A[] %s == 1" % e]), allowed=[SE % "Property"], ctc=False)
     c["query-EF"] = dict(mk=lambda e: dict(queries=["E<> %s == 1" % e]), allowed=[SE % "Property"], ctc=False)
